@@ -138,7 +138,84 @@ Section MemoProofs.
   Theorem incomplete_key_refuted : (exists c1 c2, key c1 = key c2 /\ f c1 <> f c2) ->
     exists h, results key Kdec f h <> map f h.
   Proof. intros [c1 [c2 [E N]]]. exists [c1; c2]. exact (proj2 (incomplete_key_wrong_answer c1 c2 E N)). Qed.
+
+  (** the NEAR-COLLISION PAIR test of the harness: two calls whose values differ, run one after the other from an empty
+      dictionary, are both answered correctly exactly when the key tells them apart *)
+  Theorem near_collision_pair_decides : forall c1 c2, f c1 <> f c2 ->
+    (results key Kdec f [c1; c2] = map f [c1; c2] <-> key c1 <> key c2).
+  Proof.
+    intros c1 c2 N. unfold results, run, step. simpl.
+    destruct (Kdec (key c2) (key c1)) as [e|n]; simpl.
+    - split.
+      + intros H. injection H as H. now elim N.
+      + intros H. elim H. now symmetry.
+    - split; [|reflexivity]. intros _ E. apply n. now symmetry.
+  Qed.
+
+  (** ... so the two-call histories are a COMPLETE test of the key: the key is incomplete iff some pair fails *)
+  Theorem key_incomplete_iff_some_pair_fails :
+    (exists c1 c2, key c1 = key c2 /\ f c1 <> f c2) <-> (exists c1 c2, results key Kdec f [c1; c2] <> map f [c1; c2]).
+  Proof.
+    split.
+    - intros [c1 [c2 [E N]]]. exists c1, c2. exact (proj2 (incomplete_key_wrong_answer c1 c2 E N)).
+    - intros [c1 [c2 H]]. exists c1, c2. revert H. unfold results, run, step. simpl.
+      destruct (Kdec (key c2) (key c1)) as [e|n]; simpl; intros H.
+      + split; [now symmetry|]. intros E. apply H. now rewrite E.
+      + now elim H.
+  Qed.
 End MemoProofs.
+
+(* ------------------------------------------------------------------------------------------ *)
+(** ** a dictionary shared by all generated closures (low-pass matrices hoisted to module level) *)
+Section SharedCache.
+  Variables Env Args KeyT Precalc : Type.
+  Variable kproj : Env -> KeyT.
+  Variable Kdec : forall a b : KeyT, {a = b} + {a <> b}.
+  Variable precalc : Env -> Precalc.
+
+  (** transparent when the key keeps everything of the environment the stored value depends on *)
+  Theorem shared_cache_transparent : (forall e1 e2, kproj e1 = kproj e2 -> precalc e1 = precalc e2) ->
+    forall h : list (sh_call Env Args), results (sh_key kproj) Kdec (sh_f precalc) h = map (sh_f precalc) h.
+  Proof.
+    intros KC. apply memo_transparent. intros [e1 a1] [e2 a2] E. unfold sh_key, sh_f in *. simpl in *. now apply KC.
+  Qed.
+
+  (** and otherwise two generated functions whose environments the key confuses answer the second call with the
+      first one's matrices, whatever their own arguments are *)
+  Theorem shared_cache_incomplete_key_refuted : forall e1 e2 (a1 a2 : Args), kproj e1 = kproj e2 -> precalc e1 <> precalc e2 ->
+    results (sh_key kproj) Kdec (sh_f precalc) [(e1, a1); (e2, a2)] = [precalc e1; precalc e1] /\
+    results (sh_key kproj) Kdec (sh_f precalc) [(e1, a1); (e2, a2)] <> map (sh_f precalc) [(e1, a1); (e2, a2)].
+  Proof.
+    intros e1 e2 a1 a2 E N. unfold results, run, step, sh_key, sh_f. simpl.
+    destruct (Kdec (kproj e2) (kproj e1)) as [_|n]; [|now symmetry in E].
+    simpl. split; [reflexivity|]. intros H. injection H as H. now apply N.
+  Qed.
+End SharedCache.
+
+Definition dec_lp_full : forall a b : list (nat * list Z) * list Z * list Z * list Z * Z * Z, {a = b} + {a <> b}.
+Proof. repeat decide equality. Defined.
+Definition dec_lp_names : forall a b : list nat * list Z * list Z * list Z * Z * Z, {a = b} + {a <> b}.
+Proof. repeat decide equality. Defined.
+
+(** the whole environment in the key: transparent for EVERY precalc, every history of every set of generated functions *)
+Theorem lowpass_shared_full_key_transparent : forall (Args Precalc : Type) (precalc : lp_env -> Precalc) (h : list (sh_call lp_env Args)),
+  results (sh_key lp_key_full) dec_lp_full (sh_f precalc) h = map (sh_f precalc) h.
+Proof.
+  intros Args Precalc precalc. apply shared_cache_transparent.
+  intros [c1 s1 b1 f1 t1 n1] [c2 s2 b2 f2 t2 n2] E. unfold lp_key_full in E. simpl in E. injection E as -> -> -> -> -> ->. reflexivity.
+Qed.
+
+(** [tuple(cov_dist)] in the key: two data sets with the same population names and sizes but different coverage share
+    the matrices - the second generated function returns the first one's *)
+Theorem lowpass_shared_names_key_refuted :
+  exists (precalc : lp_env -> list (nat * list Z)) (h : list (sh_call lp_env unit)),
+    results (sh_key lp_key_names) dec_lp_names (sh_f precalc) h <> map (sh_f precalc) h.
+Proof.
+  exists le_cov.
+  exists [({| le_cov := [(0, [1; 2]%Z)]; le_nseq := [8%Z]; le_nsub := [6%Z]; le_Fx := [0%Z]; le_thr := 1%Z; le_nsim := 1000%Z |}, tt);
+          ({| le_cov := [(0, [9; 12]%Z)]; le_nseq := [8%Z]; le_nsub := [6%Z]; le_Fx := [0%Z]; le_thr := 1%Z; le_nsim := 1000%Z |}, tt)].
+  apply shared_cache_incomplete_key_refuted; [reflexivity | discriminate].
+Qed.
 
 (* ------------------------------------------------------------------------------------------ *)
 (** ** one key-completeness lemma per dadi cache *)
